@@ -17,16 +17,26 @@ WORDS = ("Topic", "Partition", "Broker", "Leader", "Epoch", "Offset", "Group", "
          "ISR", "ID", "Id", "Type", "V3", "And", "Below", "Log", "Dir", "Replica", "Assignment", "Metadata", "Session", "Name", "Value", "Key", "Count",
          "Max", "Min", "Filter", "Hash", "Format", "Input", "URL", "ACL", "Kip", "X2", "Data", "Info", "List", "Set", "Map", "Resource", "Pattern")
 PRIM_TYPES = ("bool", "int8", "int16", "int32", "int64", "uint16", "uint32", "uint64", "float64", "string", "bytes", "uuid", "records")
-SPECIAL = (("ErrorCode", "int16"), ("PartitionErrorCode", "int16"), ("ThrottleTimeMs", "int32"), ("TimeoutMs", "int32"), ("SessionTimeoutMs", "int32"),
-           ("RetentionTimeMs", "int64"), ("MaxLifetimeMs", "int64"), ("IssueTimestampMs", "int64"), ("LogAppendTimeMs", "int64"), ("MaxTimestampMs", "int64"))
+# error-code names, every duration name the generator knows - each with BOTH integer widths (the width comes from the declared type, not from
+# the name) - and the timestamp names (int64 only)
+_DURATIONS = ("timeoutMs", "TimeoutMs", "ThrottleTimeMs", "MaxWaitMs", "SessionLifetimeMs", "TransactionTimeoutMs", "MaxLifetimeMs", "SessionTimeoutMs",
+              "RebalanceTimeoutMs", "ExpiryTimePeriodMs", "RenewPeriodMs", "RetentionTimeMs", "HeartbeatIntervalMs", "PushIntervalMs")
+SPECIAL = ((("ErrorCode", "int16"), ("PartitionErrorCode", "int16")) * 4 + tuple((n, w) for n in _DURATIONS for w in ("int32", "int64"))
+           + tuple((n, "int64") for n in ("IssueTimestampMs", "ExpiryTimestampMs", "MaxTimestampMs", "TransactionStartTimeMs", "LogAppendTimeMs")) * 2)
 ENTITY = (("brokerId", "int32"), ("producerId", "int64"), ("groupId", "string"), ("topicName", "string"), ("transactionalId", "string"))
+
+
+# names a generated module imports or defines itself: a struct (or field) of that name would shadow them - not something a well-formed
+# definition does, and not what C16 is about
+RESERVED_NAMES = frozenset({"BrokerId", "ProducerId", "GroupId", "TopicName", "TransactionalId", "EntityType", "ErrorCode", "Records", "TZAware", "ClassVar",
+                            "RequestHeader", "ResponseHeader", "Final", "Field", "Uuid", "Datetime"})
 
 
 def _name(rng: random.Random, used: set[str], nwords: tuple[int, int] = (1, 3)) -> str:
     for _ in range(200):
         n = "".join(rng.choice(WORDS) for _ in range(rng.randint(*nwords)))
         sn = interpret.snake(n)
-        if len(n) >= 2 and not n.endswith("Ms") and n not in used and not keyword.iskeyword(sn) and n not in interpret.ERROR_CODE_NAMES \
+        if len(n) >= 2 and not n.endswith("Ms") and n not in used and not keyword.iskeyword(sn) and n not in interpret.ERROR_CODE_NAMES and n not in RESERVED_NAMES \
                 and not sn.endswith(("_request", "_response")) and sn not in used:
             used.add(n)
             used.add(sn)
@@ -92,13 +102,14 @@ def random_field(rng: random.Random, used: set[str], versions: list[int], flex_f
     can_tag = bool(flexible_fv) and rng.random() < 0.3
     if kind < 0.12:
         name, typ = rng.choice(SPECIAL)
-        if name in used:
+        attr = interpret.snake(name.removesuffix("Ms"))  # (the generator drops the Ms suffix: TimeoutMs and timeoutMs are the same attribute)
+        if name in used or attr in used or interpret.snake(name) in used:
             name, typ = _name(rng, used), "int32"
         else:
-            used.add(name)
+            used.update((name, attr, interpret.snake(name)))
             constructs.append("special-name:" + ("error" if "ErrorCode" in name else "time"))
         f.update(name=name, type=typ)
-        if name in ("IssueTimestampMs", "LogAppendTimeMs", "MaxTimestampMs") and rng.random() < 0.5:
+        if name in interpret.DATETIME_NAMES and rng.random() < 0.5:
             f["default"] = "-1"
             constructs.append("default:datetime-null")
         elif "ErrorCode" not in name and name not in interpret.DATETIME_NAMES and rng.random() < 0.4:
